@@ -669,11 +669,11 @@ func zzC09CatMap(rng *rand.Rand, n int) (cm []Result) {
 }
 
 type zzC09WalkStats struct {
-	Acts                                                  map[string]int
-	ActMs                                                 map[string]int64
-	Steps, Reads, Targets, Covered, Restarts, Bad, Flaky  int
-	CoveredNT                                             int
-	TimedOut                                              bool
+	Acts                                                 map[string]int
+	ActMs                                                map[string]int64
+	Steps, Reads, Targets, Covered, Restarts, Bad, Flaky int
+	CoveredNT                                            int
+	TimedOut                                             bool
 }
 
 // zzC09Walk covers the target edges of worker w with greedy tours: from the
